@@ -80,8 +80,8 @@ func xmlTokens(src string) ([]string, error) {
 // strict XML documents over arbitrary element / attribute names and text (no lenient feature used)
 func genStrictXML(r *Rng) string {
 	names := []string{"mjml", "a", "b", "mj-x", "ns:el", "Item", "x_y", "d.e", "mj-body", "mj-section"}
-	texts := []string{"", "hello", " spaced  text ", "a &amp; b", "&lt;tag&gt;", "&#65;&#x42;", "line\nbreak", "\ttab", "é ü", "quote \" ' here", "]] >"}
-	avals := []string{"v", "", "a b", "x&amp;y", "&lt;", "&quot;q&quot;", "&apos;", "é", "1&#50;3", " lead", "a\tb"}
+	texts := []string{"", "hello", " spaced  text ", "a &amp; b", "&lt;tag&gt;", "&#65;&#x42;", "line\nbreak", "\ttab", "é ü", "quote \" ' here", "]] >", "&#x1F600;&#128512;", "&#x00000E9;"}
+	avals := []string{"v", "", "a b", "x&amp;y", "&lt;", "&quot;q&quot;", "&apos;", "é", "1&#50;3", " lead", "a\tb", "hi &#x1F600; there", "&#128512;", "&#x00000E9;", "&#0000233;x", "a&#x10FFFF;&#65;"}
 	var gen func(depth int) string
 	gen = func(depth int) string {
 		n := r.Pick(names[1:])
@@ -259,7 +259,7 @@ func runC18(res *Result, tier string, seed int64, replay string) {
 		texts = append(texts, f.MJML)
 	}
 	texts = append(texts, srcs[:min(len(srcs), 200)]...)
-	hostile := []string{"", "&", "&&", "a=\"&\"", "<a b=\"x&y;z\" c='&amp;&lt;&bogus;&#12;&#x1f;&#;&#x;'>&copy;&nbsp;&#160;&#xA0;</a>", "<!-- <mjml> --> <MJML>", "<!--unterminated <mjml>",
+	hostile := []string{"", "&", "&&", "a=\"&\"", "<a b=\"&#x1F600; &#128512; &#x00000E9; &#00000000065; &hellip; &divide; &abcdefghij; &#xabcdefg;\">", "<a b=\"x&y;z\" c='&amp;&lt;&bogus;&#12;&#x1f;&#;&#x;'>&copy;&nbsp;&#160;&#xA0;</a>", "<!-- <mjml> --> <MJML>", "<!--unterminated <mjml>",
 		"  \r\n\t<mjml>", "<!-- a --><!-- b -->x<!-- c --> <mjml a='\"&'>", "]]>", "a]]>b]]]>c]]", "<mjml", "<mjm", "<!---->", "<!--->", "\xff\xfe<mjml>", "<a 'q\"&x' \"r'&y\">"}
 	texts = append(texts, hostile...)
 	for i := 0; i < 300; i++ {
